@@ -11,9 +11,12 @@ What is assumed, and where it is written down:
   percent-decoding and the WSGI server are outside the model.
 * `TemplateOk`/`Shape` — the template has exactly the conversions `%(value)s` and `%(results)s`;
   proved for the shipped `template.html` (`tplReal_shape`, a snapshot of the file).
-* `A` — what the number modules must do on the submitted number (properties C01/C04 and
-  "conversions return strings").  **The last part is false on the current tree**: see
-  `application_server_error_witness` and the list in `tools/search/c18.py`.
+* `A` — what the number modules must do on the submitted number (properties C01/C04: `is_valid`
+  total, `compact`/`format` return strings on accepted numbers) plus UTF-8 encodability of the text
+  that reaches the page.  Since upstream commit 6b1a6e2 (`html.escape(str(conversion))`) `A` puts
+  **no** condition on what the conversion functions return: `formatEntry_total`,
+  `application_ok_html`.  The old failure is kept as the labelled historical witness
+  `formatEntry_fix_witness`.  In AJAX mode the values still have to be JSON-serialisable (`AJson`).
 * `json.dumps` is trusted to serialise `str/int/None/bool/dict/list` values; the AJAX body is the
   structured list of records.
 -/
@@ -283,106 +286,60 @@ theorem escapeConv_ok {c : Conv} {e : Str} : escapeConv c = .ok e ↔ ∃ s, c =
 theorem escapeConv_error {c : Conv} {e : Exc} (h : escapeConv c = .error e) : e = .attributeError := by
   cases c <;> simp [escapeConv, raise, pure_ok] at h <;> exact h.symm
 
-theorem appendConvs_ok (cs : List (Str × Conv)) : ∀ (acc e : Str),
-    appendConvs acc cs = .ok e ↔
-      ∃ convs : List (Str × Str), cs = convs.map (fun p => (p.1, Conv.str p.2)) ∧
-        e = acc ++ convs.flatMap (fun p => convHtml p.1 p.2) := by
-  induction cs with
-  | nil =>
-    intro acc e
-    simp only [appendConvs, pure_ok]
-    constructor
-    · intro h; cases h; exact ⟨[], rfl, by simp⟩
-    · rintro ⟨convs, hc, rfl⟩
-      cases convs with
-      | nil => simp
-      | cons q convs => simp at hc
-  | cons p cs ih =>
-    intro acc e
-    obtain ⟨k, v⟩ := p
-    simp only [appendConvs]
-    constructor
-    · intro h
-      cases hv : escapeConv v with
-      | error x => rw [hv, bind_error] at h; cases h
-      | ok ev =>
-        rw [hv, bind_ok] at h
-        obtain ⟨s, rfl, rfl⟩ := escapeConv_ok.mp hv
-        obtain ⟨convs, rfl, rfl⟩ := (ih _ _).mp h
-        exact ⟨(k, s) :: convs, by simp, by simp [convHtml]⟩
-    · rintro ⟨convs, hc, rfl⟩
-      cases convs with
-      | nil => simp at hc
-      | cons q convs =>
-        simp only [List.map_cons, List.cons.injEq, Prod.mk.injEq] at hc
-        obtain ⟨⟨rfl, rfl⟩, rfl⟩ := hc
-        simp only [escapeConv, pure_ok, bind_ok]
-        exact (ih _ _).mpr ⟨convs, rfl, by simp [convHtml]⟩
+/-- the `str()` texts of a conversions dictionary -/
+def convTexts (cs : List (Str × Conv)) : List (Str × Str) := cs.map (fun p => (p.1, convStr p.2))
 
-theorem appendConvs_error (cs : List (Str × Conv)) : ∀ (acc : Str) (e : Exc),
-    appendConvs acc cs = .error e → e = .attributeError := by
+theorem appendConvs_eq (cs : List (Str × Conv)) : ∀ (acc : Str),
+    appendConvs acc cs = acc ++ (convTexts cs).flatMap (fun p => convHtml p.1 p.2) := by
   induction cs with
-  | nil => intro acc e h; simp [appendConvs, pure_ok] at h
+  | nil => intro acc; simp [appendConvs, convTexts]
   | cons p cs ih =>
-    intro acc e h
-    obtain ⟨k, v⟩ := p
-    simp only [appendConvs] at h
-    cases hv : escapeConv v with
-    | error x => rw [hv, bind_error] at h; cases h; exact escapeConv_error hv
-    | ok ev => rw [hv, bind_ok] at h; exact ih _ _ h
+    intro acc
+    have := ih (acc ++ convLine p.1 p.2)
+    simp only [appendConvs, List.foldl_cons] at this ⊢
+    rw [this]
+    simp [convTexts, convLine, convHtml]
 
-/-- `format(data)` succeeds exactly when the formatted number and all conversions are strings,
-and then the item is `entryHtml` of those strings. -/
+/-- `format(data)` succeeds exactly when the formatted number is a string — whatever the
+conversions are — and then the item is `entryHtml` of that string and the `str()` texts of the
+conversions. -/
 theorem formatEntry_ok (descr : Str → Str) (i : Info) (e : Str) :
     formatEntry descr i = .ok e ↔
-      ∃ (num : Str) (convs : List (Str × Str)), i.number = .str num ∧
-        i.conversions = convs.map (fun p => (p.1, Conv.str p.2)) ∧
-        e = entryHtml descr num i.name i.description convs := by
+      ∃ (num : Str), i.number = .str num ∧
+        e = entryHtml descr num i.name i.description (convTexts i.conversions) := by
   unfold formatEntry
   constructor
   · intro h
-    cases h1 : appendConvs (descr i.description) i.conversions with
-    | error x => rw [h1, bind_error] at h; cases h
-    | ok d =>
-      rw [h1, bind_ok] at h
-      cases h2 : escapeConv i.number with
-      | error x => rw [h2, bind_error] at h; cases h
-      | ok n =>
-        rw [h2, bind_ok, pure_ok] at h
-        obtain ⟨convs, hc, rfl⟩ := (appendConvs_ok _ _ _).mp h1
-        obtain ⟨num, hn, rfl⟩ := escapeConv_ok.mp h2
-        refine ⟨num, convs, hn, hc, ?_⟩
-        cases h
-        simp [entryHtml]
-  · rintro ⟨num, convs, hn, hc, rfl⟩
-    rw [(appendConvs_ok _ _ _).mpr ⟨convs, hc, rfl⟩, bind_ok, hn]
-    simp [escapeConv, pure_ok, bind_ok, entryHtml]
-
-/-- the only way `format(data)` fails is the `AttributeError` of `html.escape` on a non-string -/
-theorem formatEntry_error (descr : Str → Str) (i : Info) (e : Exc)
-    (h : formatEntry descr i = .error e) : e = .attributeError := by
-  unfold formatEntry at h
-  cases h1 : appendConvs (descr i.description) i.conversions with
-  | error x => rw [h1, bind_error] at h; cases h; exact appendConvs_error _ _ _ h1
-  | ok d =>
-    rw [h1, bind_ok] at h
     cases h2 : escapeConv i.number with
-    | error x => rw [h2, bind_error] at h; cases h; exact escapeConv_error h2
-    | ok n => rw [h2, bind_ok, pure_ok] at h; cases h
+    | error x => simp only [h2, bind_error] at h; cases h
+    | ok n =>
+      simp only [h2, bind_ok, pure_ok] at h
+      obtain ⟨num, hn, rfl⟩ := escapeConv_ok.mp h2
+      refine ⟨num, hn, ?_⟩
+      cases h
+      simp [entryHtml, appendConvs_eq]
+  · rintro ⟨num, hn, rfl⟩
+    simp [hn, escapeConv, pure_ok, bind_ok, entryHtml, appendConvs_eq]
 
-/-- `format(data)` fails as soon as one conversion is not a string -/
-theorem formatEntry_nonstr (descr : Str → Str) (i : Info)
-    (h : ∃ p ∈ i.conversions, ∀ s, p.2 ≠ Conv.str s) :
-    formatEntry descr i = .error .attributeError := by
-  cases hf : formatEntry descr i with
-  | error e => rw [formatEntry_error _ _ _ hf]
-  | ok e =>
-    obtain ⟨num, convs, _, hc, _⟩ := (formatEntry_ok _ _ _).mp hf
-    obtain ⟨p, hp, hne⟩ := h
-    rw [hc, List.mem_map] at hp
-    obtain ⟨q, _, rfl⟩ := hp
-    exact absurd rfl (hne q.2)
+/-- the only way `format(data)` can still fail: `html.escape(data['number'])` on a non-string -/
+theorem formatEntry_error (descr : Str → Str) (i : Info) (e : Exc)
+    (h : formatEntry descr i = .error e) : e = .attributeError ∧ ∀ s, i.number ≠ .str s := by
+  unfold formatEntry at h
+  cases h2 : escapeConv i.number with
+  | error x =>
+    simp only [h2, bind_error] at h
+    cases h
+    refine ⟨escapeConv_error h2, ?_⟩
+    intro s hs
+    rw [hs] at h2
+    simp [escapeConv, pure_ok] at h2
+  | ok n => simp only [h2, bind_ok, pure_ok] at h; cases h
 
+/-- **The fix.** Whatever the conversion functions returned (`int`, `None`, `bool`, `dict`, `tuple`,
+`Decimal`, …), `format(data)` succeeds as soon as the formatted number is a string. -/
+theorem formatEntry_total (descr : Str → Str) (i : Info) (num : Str) (h : i.number = .str num) :
+    formatEntry descr i = .ok (entryHtml descr num i.name i.description (convTexts i.conversions)) :=
+  (formatEntry_ok descr i _).mpr ⟨num, h, rfl⟩
 
 /-! ## `get_conversions`, `info`, the result list -/
 
@@ -424,34 +381,6 @@ theorem mem_conversions {P : Str × Conv → Prop} {gs : List Getter} {n : Str}
   rw [List.mem_filterMap] at hp
   obtain ⟨g, hg, hy⟩ := hp
   exact h g hg p hy
-
-/-- a dictionary whose keys are pairwise distinct is the list of pairs itself -/
-theorem dictOfPairs_nodup {ps : List (Str × Conv)} (h : (ps.map Prod.fst).Nodup) :
-    dictOfPairs ps = ps := by
-  unfold dictOfPairs
-  suffices H : ∀ (acc : List (Str × Conv)), ((acc ++ ps).map Prod.fst).Nodup →
-      ps.foldl (fun d p => dictSet d p.1 p.2) acc = acc ++ ps by simpa using H [] (by simpa using h)
-  clear h
-  induction ps with
-  | nil => intro acc _; simp
-  | cons q ps ih =>
-    intro acc hacc
-    have hset : ∀ (acc : List (Str × Conv)), q.1 ∉ acc.map Prod.fst → dictSet acc q.1 q.2 = acc ++ [q] := by
-      intro acc
-      induction acc with
-      | nil => intro _; rfl
-      | cons a acc iha =>
-        intro hq
-        simp only [List.map_cons, List.mem_cons, not_or] at hq
-        simp only [dictSet, List.cons_append]
-        rw [if_neg (fun h => hq.1 h.symm), iha hq.2]
-    have hq : q.1 ∉ acc.map Prod.fst := by
-      intro hmem
-      rw [List.map_append, List.nodup_append] at hacc
-      exact hacc.2.2 _ hmem _ (by simp) rfl
-    simp only [List.foldl_cons]
-    rw [hset acc hq, ih (acc ++ [q]) (by simpa using hacc)]
-    simp
 
 /-- module `m` is listed for `n`: `if module.is_valid(number)` -/
 def accepts (m : Module) (n : Str) : Bool :=
@@ -639,6 +568,68 @@ theorem encodable_entry {descr : Str → Str} {num name d : Str} {convs : List (
     h3, encodable_convs h4⟩, by decide⟩
 
 
+theorem encodable_small {c : Nat} (h : c < 0xD800) : encodable c = true := by
+  simp [encodable, h]
+
+theorem encodable_cons {c : Nat} {s : Str} (hc : encodable c = true) (hs : Encodable s) : Encodable (c :: s) := by
+  intro x hx
+  simp only [List.mem_cons] at hx
+  rcases hx with rfl | hx
+  · exact hc
+  · exact hs x hx
+
+theorem encodable_natDigitsGo : ∀ (fuel n : Nat) (acc : Str), Encodable acc →
+    Encodable (Py.natDigitsGo 10 false fuel n acc) := by
+  intro fuel
+  induction fuel with
+  | zero => intro n acc h; simpa [Py.natDigitsGo] using h
+  | succ fuel ih =>
+    intro n acc h
+    unfold Py.natDigitsGo
+    split
+    · next hn =>
+      apply encodable_cons _ h
+      apply encodable_small
+      simp only [Py.digitChar, hn, if_true]; omega
+    · apply ih
+      apply encodable_cons _ h
+      apply encodable_small
+      have : n % 10 < 10 := Nat.mod_lt _ (by decide)
+      simp only [Py.digitChar, this, if_true]; omega
+
+/-- `str(int)` is ASCII -/
+theorem encodable_strOfInt (n : Int) : Encodable (Py.strOfInt n) := by
+  have h : Encodable (Py.strOfNat n.natAbs) := encodable_natDigitsGo _ _ _ encodable_nil
+  unfold Py.strOfInt
+  split
+  · exact encodable_cons (by decide) h
+  · exact h
+
+/-- `str(conversion)` can be encoded whenever the texts carried by the value can: nothing to check
+for `int`, `None`, `bool` -/
+theorem encodable_convStr (c : Conv)
+    (h : match c with
+      | .str s => Encodable s
+      | .other t => Encodable t
+      | .nojson t => Encodable t
+      | _ => True) : Encodable (convStr c) := by
+  cases c with
+  | str s => exact h
+  | other t => exact h
+  | nojson t => exact h
+  | int n => exact encodable_strOfInt n
+  | none => simp only [convStr]; decide
+  | bool b => cases b <;> simp only [convStr] <;> decide
+
+/-- hence `ConvEnc` holds automatically for `int`, `None` and `bool` results and reduces to the
+encodability of the carried text otherwise -/
+theorem convEnc_of (c : Conv)
+    (h : match c with
+      | .str s => Encodable s
+      | .other t => Encodable t
+      | .nojson t => Encodable t
+      | _ => True) : Encodable (convStr c) := encodable_convStr c h
+
 /-! ## the application -/
 
 /-- the submitted number: `parameters['number'][0]` when the key is present -/
@@ -709,44 +700,44 @@ theorem lookupNumber_ok (mods : List Module) (params : List (Str × List Str))
       refine ⟨infos, ?_, (mapM_ok_iff _ _ _).mp hm⟩
       rw [hm, bind_ok, pure_ok]
 
-/-- the value slot of `getter(number)` is fine for the page: it raised (and is skipped), or it is
-a date, or it is a string (encodable as UTF-8) -/
-def ConvStr (r : R GetVal) : Prop :=
+/-- the text that `getter(number)` contributes to the page can be encoded as UTF-8: it raised (and
+is skipped), or it is a date, or `str(value)` is encodable — **any** kind of value is fine -/
+def ConvEnc (r : R GetVal) : Prop :=
   match r with
   | .error _ => True
   | .ok (.date iso) => Encodable iso
-  | .ok (.conv (.str s)) => Encodable s
-  | .ok _ => False
+  | .ok (.conv c) => Encodable (convStr c)
 
 /-- **Assumption `A`** about the module table on the submitted number `n`:
 `is_valid` is a total Boolean (C01); `format`/`compact` return strings on accepted numbers
-(C04); every conversion function raises (inside the `try`), returns a date, or returns a
-string; and all text that reaches the page can be encoded as UTF-8 (no lone surrogates —
-`parse_qs` never produces them from a WSGI query string). -/
+(C04); and all text that reaches the page can be encoded as UTF-8 (no lone surrogates —
+`parse_qs` never produces them from a WSGI query string).  Nothing is assumed about the *type* of
+what conversion functions return. -/
 structure A (descr : Str → Str) (mods : List Module) (n : Str) : Prop where
   number_enc : Encodable n
   valid_total : ∀ m ∈ mods, ∃ b, m.isValid n = .ok b
   format_str : ∀ m ∈ mods, accepts m n = true → ∃ s, m.format n = .ok (.str s) ∧ Encodable s
   compact_str : ∀ m ∈ mods, accepts m n = true → ∃ s, m.compact n = .ok (.str s)
-  conv_str : ∀ m ∈ mods, accepts m n = true → ∀ g ∈ m.getters, Encodable g.prop ∧ ConvStr (g.run n)
+  conv_enc : ∀ m ∈ mods, accepts m n = true → ∀ g ∈ m.getters, Encodable g.prop ∧ ConvEnc (g.run n)
   text_enc : ∀ m ∈ mods, accepts m n = true → Encodable m.name ∧ Encodable (descr m.description)
 
-/-- the weaker assumption that suffices in AJAX mode: values only have to be JSON-serialisable
-(`int`, `None`, `dict` are fine there) -/
+/-- no conversion function returns a value `json.dumps` rejects (Decimal, bytes, set) -/
+def NoNojson (mods : List Module) (n : Str) : Prop :=
+  ∀ m ∈ mods, accepts m n = true → ∀ g ∈ m.getters, ∀ t, g.run n ≠ .ok (.conv (.nojson t))
+
+/-- the assumption that suffices in AJAX mode: values only have to be JSON-serialisable -/
 structure AJson (mods : List Module) (n : Str) : Prop where
   valid_total : ∀ m ∈ mods, ∃ b, m.isValid n = .ok b
   format_json : ∀ m ∈ mods, accepts m n = true → ∃ c, m.format n = .ok c ∧ c.jsonable = true
   compact_json : ∀ m ∈ mods, accepts m n = true → ∃ c, m.compact n = .ok c ∧ c.jsonable = true
-  conv_json : ∀ m ∈ mods, accepts m n = true → ∀ g ∈ m.getters, g.run n ≠ .ok (.conv .nojson)
+  conv_json : NoNojson mods n
 
-theorem A.toAJson {descr : Str → Str} {mods : List Module} {n : Str} (h : A descr mods n) : AJson mods n where
+theorem A.toAJson {descr : Str → Str} {mods : List Module} {n : Str} (h : A descr mods n)
+    (hj : NoNojson mods n) : AJson mods n where
   valid_total := h.valid_total
   format_json := fun m hm ha => by obtain ⟨s, hs, _⟩ := h.format_str m hm ha; exact ⟨_, hs, rfl⟩
   compact_json := fun m hm ha => by obtain ⟨s, hs⟩ := h.compact_str m hm ha; exact ⟨_, hs, rfl⟩
-  conv_json := fun m hm ha g hg hr => by
-    have := (h.conv_str m hm ha g hg).2
-    rw [hr] at this
-    exact this
+  conv_json := hj
 
 theorem accepts_valid {m : Module} {n : Str} (h : accepts m n = true) : m.isValid n = .ok true := by
   unfold accepts at h
@@ -754,7 +745,7 @@ theorem accepts_valid {m : Module} {n : Str} (h : accepts m n = true) : m.isVali
   · assumption
   · cases h
 
-theorem yieldOf_jsonable {g : Getter} {n : Str} (h : g.run n ≠ .ok (.conv .nojson)) :
+theorem yieldOf_jsonable {g : Getter} {n : Str} (h : ∀ t, g.run n ≠ .ok (.conv (.nojson t))) :
     ∀ p, yieldOf n g = some p → p.2.jsonable = true := by
   intro p hp
   unfold yieldOf at hp
@@ -765,7 +756,7 @@ theorem yieldOf_jsonable {g : Getter} {n : Str} (h : g.run n ≠ .ok (.conv .noj
     | date iso => simp only [hr, Option.some.injEq] at hp; rw [← hp]; rfl
     | conv c =>
       cases c with
-      | nojson => exact absurd hr h
+      | nojson t => exact absurd hr (h t)
       | str s =>
         simp only [hr] at hp
         split at hp
@@ -773,7 +764,8 @@ theorem yieldOf_jsonable {g : Getter} {n : Str} (h : g.run n ≠ .ok (.conv .noj
         · cases hp
       | int k => simp only [hr, Option.some.injEq] at hp; rw [← hp]; rfl
       | none => simp only [hr, Option.some.injEq] at hp; rw [← hp]; rfl
-      | other => simp only [hr, Option.some.injEq] at hp; rw [← hp]; rfl
+      | bool b => simp only [hr, Option.some.injEq] at hp; rw [← hp]; rfl
+      | other t => simp only [hr, Option.some.injEq] at hp; rw [← hp]; rfl
 
 /-- **application_ok (AJAX mode).** For every parameter dictionary and every module table
 satisfying `AJson` on the submitted number, the response has status 200 and its JSON list
@@ -829,47 +821,34 @@ theorem application_ok_json (tpl : Str) (params : List (Str × List Str)) (descr
     exact h.symm
 
 
-theorem yieldOf_str {g : Getter} {n : Str} (hk : Encodable g.prop) (h : ConvStr (g.run n)) :
-    ∀ p, yieldOf n g = some p → Encodable p.1 ∧ ∃ s, p.2 = .str s ∧ Encodable s := by
+theorem yieldOf_enc {g : Getter} {n : Str} (hk : Encodable g.prop) (h : ConvEnc (g.run n)) :
+    ∀ p, yieldOf n g = some p → Encodable p.1 ∧ Encodable (convStr p.2) := by
   intro p hp
   unfold yieldOf at hp
-  unfold ConvStr at h
+  unfold ConvEnc at h
   cases hr : g.run n with
   | error e => simp [hr] at hp
   | ok v =>
     rw [hr] at h
     cases v with
-    | date iso => simp only [hr, Option.some.injEq] at hp; rw [← hp]; exact ⟨hk, iso, rfl, h⟩
+    | date iso => simp only [hr, Option.some.injEq] at hp; rw [← hp]; exact ⟨hk, h⟩
     | conv c =>
       cases c with
       | str s =>
         simp only [hr] at hp
         split at hp
-        · cases hp; exact ⟨hk, s, rfl, h⟩
+        · cases hp; exact ⟨hk, h⟩
         · cases hp
-      | int k => exact h.elim
-      | none => exact h.elim
-      | other => exact h.elim
-      | nojson => exact h.elim
-
-/-- a dictionary all of whose values are strings -/
-theorem all_str_map (l : List (Str × Conv)) (h : ∀ p ∈ l, ∃ s, p.2 = Conv.str s) :
-    ∃ convs : List (Str × Str), l = convs.map (fun p => (p.1, Conv.str p.2)) := by
-  induction l with
-  | nil => exact ⟨[], rfl⟩
-  | cons p l ih =>
-    obtain ⟨convs, hc⟩ := ih (fun p hp => h p (by simp [hp]))
-    obtain ⟨s, hs⟩ := h p (by simp)
-    refine ⟨(p.1, s) :: convs, ?_⟩
-    obtain ⟨k, v⟩ := p
-    simp only at hs
-    simp [hc, hs]
+      | int k => simp only [hr, Option.some.injEq] at hp; rw [← hp]; exact ⟨hk, h⟩
+      | none => simp only [hr, Option.some.injEq] at hp; rw [← hp]; exact ⟨hk, h⟩
+      | bool b => simp only [hr, Option.some.injEq] at hp; rw [← hp]; exact ⟨hk, h⟩
+      | other t => simp only [hr, Option.some.injEq] at hp; rw [← hp]; exact ⟨hk, h⟩
+      | nojson t => simp only [hr, Option.some.injEq] at hp; rw [← hp]; exact ⟨hk, h⟩
 
 /-- what one item of the result list looks like for module `m` on number `n` -/
 def ItemOf (descr : Str → Str) (n : Str) (m : Module) (e : Str) : Prop :=
-  ∃ (num : Str) (convs : List (Str × Str)), m.format n = .ok (.str num) ∧
-    conversions m.getters n = convs.map (fun p => (p.1, Conv.str p.2)) ∧
-    e = entryHtml descr num m.name m.description convs
+  ∃ (num : Str), m.format n = .ok (.str num) ∧
+    e = entryHtml descr num m.name m.description (convTexts (conversions m.getters n))
 
 theorem accepted_mem {mods : List Module} {params : List (Str × List Str)} {m : Module}
     (hm : m ∈ accepted mods params) :
@@ -894,13 +873,15 @@ theorem items_rel (descr : Str → Str) (n : Str) : ∀ (ms : List Module) (info
     | cons hfe hrest =>
       refine .cons ?_ (ih _ hrest)
       obtain ⟨h1, _, _, _, h5, h6, h7⟩ := info_ok hinfo
-      obtain ⟨num, convs, hnum', hconvs, rfl⟩ := (formatEntry_ok descr _ _).mp hfe
-      exact ⟨num, convs, by rw [h1, hnum'], by rw [← h7, hconvs], by rw [h5, h6]⟩
+      obtain ⟨num, hnum', rfl⟩ := (formatEntry_ok descr _ _).mp hfe
+      exact ⟨num, by rw [h1, hnum'], by rw [h5, h6, h7]⟩
 
-/-- **application_ok (HTML mode).** For every parameter dictionary and every module table
-satisfying `A` on the submitted number, the response has status 200 and the page is the
-template with `escape true number` in the value slot and one `<li>` item per accepted module
-(in table order) in the results slot. -/
+/-- **application_ok (HTML mode) — with the fix every conversion value yields status 200.**
+For every parameter dictionary and every module table satisfying `A` on the submitted number
+(`is_valid` total, `compact`/`format` strings on accepted numbers, encodable text; *no* condition
+on the type of what `to_*`/`get_*` return), the response has status 200 and the page is the
+template with `escape true number` in the value slot and one `<li>` item per accepted module (in
+table order) in the results slot, each showing `escape true (str(conversion))`. -/
 theorem application_ok_html (tpl s0 s1 s2 : Str) (params : List (Str × List Str))
     (descr : Str → Str) (mods : List Module)
     (ht : TemplateOk tpl s0 s1 s2) (hs0 : Encodable s0) (hs1 : Encodable s1) (hs2 : Encodable s2)
@@ -921,16 +902,10 @@ theorem application_ok_html (tpl s0 s1 s2 : Str) (params : List (Str × List Str
     obtain ⟨m, hm, hinfo⟩ := hmem i hi
     obtain ⟨n, hn, hsn, hmm, ha⟩ := accepted_mem hm
     rw [hsn] at hinfo
-    obtain ⟨h1, _, _, _, _, _, h7⟩ := info_ok hinfo
+    obtain ⟨h1, _, _, _, _, _, _⟩ := info_ok hinfo
     obtain ⟨f, hf, _⟩ := (hA n hn).format_str m hmm ha
     rw [hf] at h1
-    have hall : ∀ p ∈ conversions m.getters n, ∃ s, p.2 = Conv.str s := by
-      apply mem_conversions
-      intro g hg p hy
-      obtain ⟨_, s, hs, _⟩ := yieldOf_str ((hA n hn).conv_str m hmm ha g hg).1 ((hA n hn).conv_str m hmm ha g hg).2 p hy
-      exact ⟨s, hs⟩
-    obtain ⟨convs, hc⟩ := all_str_map _ hall
-    exact ⟨_, (formatEntry_ok descr i _).mpr ⟨f, convs, by injection h1 with h; exact h.symm, by rw [h7, hc], rfl⟩⟩
+    exact ⟨_, formatEntry_total descr i f (by injection h1 with h; exact h.symm)⟩
   obtain ⟨items, hitems⟩ := mapM_exists (formatEntry descr) infos hfmt
   have hrel2 := (mapM_ok_iff _ _ _).mp hitems
   have henc : ∀ e ∈ items, Encodable e := by
@@ -940,20 +915,17 @@ theorem application_ok_html (tpl s0 s1 s2 : Str) (params : List (Str × List Str
     obtain ⟨n, hn, hsn, hmm, ha⟩ := accepted_mem hm
     rw [hsn] at hinfo
     obtain ⟨h1, _, _, _, h5, h6, h7⟩ := info_ok hinfo
-    obtain ⟨num, convs, hnum, hconvs, rfl⟩ := (formatEntry_ok descr i e).mp hie
+    obtain ⟨num, hnum, rfl⟩ := (formatEntry_ok descr i e).mp hie
     obtain ⟨f, hf, hfe⟩ := (hA n hn).format_str m hmm ha
     rw [hf, hnum] at h1
     injection h1 with h1; injection h1 with h1; subst h1
     rw [h5, h6]
     apply encodable_entry hfe ((hA n hn).text_enc m hmm ha).1 ((hA n hn).text_enc m hmm ha).2
     intro q hq
-    have hq' : (q.1, Conv.str q.2) ∈ conversions m.getters n := by
-      rw [← h7, hconvs]; exact List.mem_map.mpr ⟨q, hq, rfl⟩
-    have := mem_conversions (P := fun p => Encodable p.1 ∧ ∃ s, p.2 = Conv.str s ∧ Encodable s)
-      (fun g hg => yieldOf_str ((hA n hn).conv_str m hmm ha g hg).1 ((hA n hn).conv_str m hmm ha g hg).2) _ hq'
-    obtain ⟨hk, s, hs, hse⟩ := this
-    injection hs with hs
-    exact ⟨hk, hs ▸ hse⟩
+    rw [h7, convTexts, List.mem_map] at hq
+    obtain ⟨p, hp, rfl⟩ := hq
+    exact mem_conversions (P := fun p => Encodable p.1 ∧ Encodable (convStr p.2))
+      (fun g hg => yieldOf_enc ((hA n hn).conv_enc m hmm ha g hg).1 ((hA n hn).conv_enc m hmm ha g hg).2) _ hp
   have hnum : Encodable (submitted params) := by
     unfold submitted
     cases hs : submitted? params with
@@ -973,12 +945,14 @@ theorem application_ok_html (tpl s0 s1 s2 : Str) (params : List (Str × List Str
 `parse_qs` contract, every mode, and every module table satisfying `A` on the submitted number,
 the status is 200; in AJAX mode the JSON list names exactly the modules whose `is_valid` is
 true, in table order; in HTML mode the page is the template filled with the escaped number and
-one item per such module. -/
+one item per such module.  AJAX mode additionally needs the conversion values to be
+JSON-serialisable (`NoNojson`: a `Decimal` would make `json.dumps` raise). -/
 theorem application_ok (tpl s0 s1 s2 : Str) (params : List (Str × List Str)) (ajax : Bool)
     (descr : Str → Str) (mods : List Module)
     (ht : TemplateOk tpl s0 s1 s2) (hs0 : Encodable s0) (hs1 : Encodable s1) (hs2 : Encodable s2)
     (hp : ParamsOk params)
-    (hA : ∀ n, submitted? params = some n → A descr mods n) :
+    (hA : ∀ n, submitted? params = some n → A descr mods n)
+    (hJ : ajax = true → ∀ n, submitted? params = some n → NoNojson mods n) :
     ∃ body, application tpl params ajax descr mods = .ok 200 body ∧
       match body with
       | .json infos => ajax = true ∧
@@ -988,7 +962,7 @@ theorem application_ok (tpl s0 s1 s2 : Str) (params : List (Str × List Str)) (a
           Rel₂ (ItemOf descr (submitted params)) (accepted mods params) items := by
   cases ajax with
   | true =>
-    obtain ⟨infos, h1, h2, h3⟩ := application_ok_json tpl params descr mods hp (fun n hn => (hA n hn).toAJson)
+    obtain ⟨infos, h1, h2, h3⟩ := application_ok_json tpl params descr mods hp (fun n hn => (hA n hn).toAJson (hJ rfl n hn))
     exact ⟨_, h1, rfl, h2, h3⟩
   | false =>
     obtain ⟨items, h1, h2⟩ := application_ok_html tpl s0 s1 s2 params descr mods ht hs0 hs1 hs2 hp hA
@@ -998,8 +972,8 @@ theorem application_ok (tpl s0 s1 s2 : Str) (params : List (Str × List Str)) (a
 answers in HTML mode, the status is 200 and the page is
 `seg0 ++ escape true number ++ seg1 ++ results ++ seg2` with the segments coming from the
 template, `results` being the `'\n'`-join of one item per record, and every item being
-`entryHtml` of string fields — i.e. the number enters the page only through `escape true`,
-directly or via `format(number)`/conversion results. -/
+`entryHtml` of the formatted number and the `str()` texts of the conversions — i.e. the number
+enters the page only through `escape true`, directly or via `format(number)`/conversion results. -/
 theorem page_value_escaped (tpl s0 s1 s2 : Str) (params : List (Str × List Str))
     (descr : Str → Str) (mods : List Module) (ht : TemplateOk tpl s0 s1 s2)
     (st : Nat) (text : Str)
@@ -1007,9 +981,8 @@ theorem page_value_escaped (tpl s0 s1 s2 : Str) (params : List (Str × List Str)
     st = 200 ∧ ∃ infos items,
       lookupNumber mods params = .ok (submitted params, infos) ∧
       text = s0 ++ escape true (submitted params) ++ s1 ++ join [10] items ++ s2 ∧
-      Rel₂ (fun (i : Info) e => ∃ (num : Str) (convs : List (Str × Str)), i.number = .str num ∧
-        i.conversions = convs.map (fun p => (p.1, Conv.str p.2)) ∧
-        e = entryHtml descr num i.name i.description convs) infos items := by
+      Rel₂ (fun (i : Info) e => ∃ (num : Str), i.number = .str num ∧
+        e = entryHtml descr num i.name i.description (convTexts i.conversions)) infos items := by
   unfold application respond at h
   cases hl : lookupNumber mods params with
   | error e => rw [hl, bind_error] at h; cases h
@@ -1083,14 +1056,15 @@ theorem Rel₂.mem_left {α β : Type} {R : α → β → Prop} {l : List α} {r
     · exact ⟨_, by simp, h1⟩
     · obtain ⟨b, hb, hr⟩ := ih a ha; exact ⟨b, by simp [hb], hr⟩
 
-/-- If everything before `format()` goes well but the conversions dictionary of one accepted
-module holds a value that is not a string, the HTML request dies with `AttributeError`. -/
+/-- The failure mode that is left in `format()`: if everything before it goes well but `format(number)`
+of one accepted module returns a non-string, the HTML request dies with `AttributeError`
+(`html.escape(data['number'])` is not wrapped in `str()`).  Excluded by `A.format_str` (C04). -/
 theorem application_server_error (tpl : Str) (params : List (Str × List Str))
     (descr : Str → Str) (mods : List Module) (n : Str)
     (hn : submitted? params = some n)
     (hv : ∀ m ∈ mods, ∃ b, m.isValid n = .ok b)
     (hf : ∀ m ∈ mods, accepts m n = true → ∃ f c, m.format n = .ok f ∧ m.compact n = .ok c)
-    (hbad : ∃ m ∈ mods, accepts m n = true ∧ ∃ p ∈ conversions m.getters n, ∀ s, p.2 ≠ Conv.str s) :
+    (hbad : ∃ m ∈ mods, accepts m n = true ∧ ∃ f, m.format n = .ok f ∧ ∀ s, f ≠ Conv.str s) :
     application tpl params false descr mods = .serverError .attributeError := by
   have hp : ParamsOk params := by
     unfold ParamsOk; intro h; simp [submitted?, h] at hn
@@ -1101,71 +1075,27 @@ theorem application_server_error (tpl : Str) (params : List (Str × List Str))
       rw [hn] at hn'; cases hn'
       obtain ⟨f, c, h1, h2⟩ := hf m hm ha
       exact ⟨_, info_of h1 h2 (accepts_valid ha)⟩)
-  obtain ⟨m, hm, ha, p, hpm, hne⟩ := hbad
+  obtain ⟨m, hm, ha, f, hfm, hne⟩ := hbad
   have hmacc : m ∈ accepted mods params := by
     simp only [accepted, hn, List.mem_filter]; exact ⟨hm, ha⟩
   obtain ⟨i, hi, hinfo⟩ := hrel.mem_left m hmacc
   rw [hsub] at hinfo
-  have hconv := (info_ok hinfo).2.2.2.2.2.2
-  have hfail : formatEntry descr i = .error .attributeError :=
-    formatEntry_nonstr descr i ⟨p, by rw [hconv]; exact hpm, hne⟩
+  have hnum := (info_ok hinfo).1
+  rw [hfm] at hnum
+  have hfail : ∃ e, formatEntry descr i = .error e := by
+    cases hfe : formatEntry descr i with
+    | error e => exact ⟨e, rfl⟩
+    | ok e =>
+      obtain ⟨num, hnum', _⟩ := (formatEntry_ok _ _ _).mp hfe
+      rw [hnum'] at hnum
+      injection hnum with hnum
+      exact absurd hnum (hne num)
   have hmap : infos.mapM (formatEntry descr) = .error .attributeError :=
-    mapM_error_of_mem _ _ _ (fun a _ e he => formatEntry_error descr a e he) ⟨i, hi, _, hfail⟩
+    mapM_error_of_mem _ _ _ (fun a _ e he => (formatEntry_error descr a e he).1) ⟨i, hi, hfail⟩
   unfold application respond
   rw [hl, bind_ok]
   simp only [finish, Bool.false_eq_true, if_false]
   rw [hmap, bind_error]
-
-theorem yield_keys_sublist (gs : List Getter) (n : Str) :
-    ((gs.filterMap (yieldOf n)).map Prod.fst).Sublist (gs.map (·.prop)) := by
-  induction gs with
-  | nil => simp
-  | cons g gs ih =>
-    simp only [List.filterMap_cons, List.map_cons]
-    cases hy : yieldOf n g with
-    | none => exact ih.cons _
-    | some p =>
-      have hk : p.1 = g.prop := by
-        unfold yieldOf at hy
-        split at hy
-        · cases hy
-        · cases hy; rfl
-        · split at hy
-          · cases hy; rfl
-          · cases hy
-        · cases hy; rfl
-      simp only [List.map_cons, hk]
-      exact ih.cons_cons _
-
-/-- with pairwise distinct property names (true of every module of the tree), an `int` returned
-by a getter lands in the conversions dictionary -/
-theorem int_mem_conversions {gs : List Getter} {n : Str} {g : Getter} {k : Int}
-    (hnd : (gs.map (·.prop)).Nodup) (hg : g ∈ gs) (hr : g.run n = .ok (.conv (.int k))) :
-    (g.prop, Conv.int k) ∈ conversions gs n := by
-  unfold conversions
-  rw [dictOfPairs_nodup ((yield_keys_sublist gs n).nodup hnd), List.mem_filterMap]
-  exact ⟨g, hg, by simp [yieldOf, hr]⟩
-
-/-- **application_server_error_witness (general form).** A module table that violates `A` only
-in that one conversion function of an accepted module returns an `int` makes the HTML request a
-server error (`AttributeError` from `html.escape`), for every template and every description
-processing. -/
-theorem application_server_error_of_int (tpl : Str) (params : List (Str × List Str))
-    (descr : Str → Str) (mods : List Module) (n : Str)
-    (hn : submitted? params = some n)
-    (hv : ∀ m ∈ mods, ∃ b, m.isValid n = .ok b)
-    (hf : ∀ m ∈ mods, accepts m n = true → ∃ s, m.format n = .ok (.str s))
-    (hc : ∀ m ∈ mods, accepts m n = true → ∃ s, m.compact n = .ok (.str s))
-    (m : Module) (hm : m ∈ mods) (ha : accepts m n = true)
-    (hnd : (m.getters.map (·.prop)).Nodup)
-    (g : Getter) (hg : g ∈ m.getters) (k : Int) (hr : g.run n = .ok (.conv (.int k))) :
-    application tpl params false descr mods = .serverError .attributeError := by
-  apply application_server_error tpl params descr mods n hn hv
-  · intro m hm ha
-    obtain ⟨s, hs⟩ := hf m hm ha
-    obtain ⟨c, hc⟩ := hc m hm ha
-    exact ⟨_, _, hs, hc⟩
-  · exact ⟨m, hm, ha, _, int_mem_conversions hnd hg hr, by intro s h; cases h⟩
 
 /-! ## the `_template` cache -/
 
@@ -1268,16 +1198,20 @@ def beNN : Module where
   isValid := fun n => .ok (n == [56, 53, 48, 55, 51, 48, 48, 51, 51, 50, 56])
   compact := fun n => .ok (.str n)
   format := fun n => .ok (.str (n ++ [46]))
-  getters := [⟨[98, 105, 114, 116, 104, 32, 100, 97, 116, 101], fun _ => .ok (.date [49, 57, 56, 53])⟩,
-              ⟨[98, 105, 114, 116, 104, 32, 121, 101, 97, 114], fun _ => .ok (.conv (.int 1985))⟩,
-              ⟨[103, 101, 110, 100, 101, 114], fun _ => .ok (.conv (.str [77]))⟩]
+  getters := [⟨[98, 105, 114, 116, 104, 32, 100, 97, 116, 101], fun _ => .ok (.date [49, 57, 56, 53])⟩,   -- birth date
+              ⟨[98, 105, 114, 116, 104, 32, 112, 108, 97, 99, 101], fun _ => .ok (.conv (.other [123, 39, 60, 39, 125]))⟩, -- birth place: "{'<'}"
+              ⟨[98, 105, 114, 116, 104, 32, 121, 101, 97, 114], fun _ => .ok (.conv (.int 1985))⟩,        -- birth year
+              ⟨[103, 101, 110, 100, 101, 114], fun _ => .ok (.conv .none)⟩,                                -- gender
+              ⟨[109], fun _ => .ok (.conv (.int (-7)))⟩,
+              ⟨[111, 107], fun _ => .ok (.conv (.bool true))⟩,
+              ⟨[120], fun _ => .error .invalidChecksum⟩]
 
-/-- the same module with `str()` applied to the year — satisfies `A` -/
-def beNNfixed : Module :=
-  { beNN with getters := [⟨[98, 105, 114, 116, 104, 32, 100, 97, 116, 101], fun _ => .ok (.date [49, 57, 56, 53])⟩,
-              ⟨[98, 105, 114, 116, 104, 32, 121, 101, 97, 114], fun _ => .ok (.conv (.str [49, 57, 56, 53]))⟩,
-              ⟨[103, 101, 110, 100, 101, 114], fun _ => .ok (.conv (.str [77]))⟩,
-              ⟨[120], fun _ => .error .invalidChecksum⟩] }
+/-- a module with a getter returning a `Decimal` — fine for the page, not for `json.dumps` -/
+def decMod : Module :=
+  { beNN with modname := [100], getters := [⟨[100], fun _ => .ok (.conv (.nojson [49, 46, 53, 48]))⟩] }
+
+/-- a module whose `format` returns an `int` (violates C04) -/
+def badFormat : Module := { beNN with modname := [98], format := fun _ => .ok (.int 5), getters := [] }
 
 /-- a module that rejects everything -/
 def rejecting : Module :=
@@ -1295,45 +1229,60 @@ def beNNinfo : Info where
   name := beNN.name
   description := beNN.description
   conversions := [([98, 105, 114, 116, 104, 32, 100, 97, 116, 101], .str [49, 57, 56, 53]),
+                  ([98, 105, 114, 116, 104, 32, 112, 108, 97, 99, 101], .other [123, 39, 60, 39, 125]),
                   ([98, 105, 114, 116, 104, 32, 121, 101, 97, 114], .int 1985),
-                  ([103, 101, 110, 100, 101, 114], .str [77])]
+                  ([103, 101, 110, 100, 101, 114], .none),
+                  ([109], .int (-7)),
+                  ([111, 107], .bool true)]
 
-/-- the page for the fixed table -/
-def page85 : Str :=
-  tplHead ++ num85 ++ tplMid ++
-    entryHtml id (num85 ++ [46]) beNN.name beNN.description
-      [([98, 105, 114, 116, 104, 32, 100, 97, 116, 101], [49, 57, 56, 53]),
-       ([98, 105, 114, 116, 104, 32, 121, 101, 97, 114], [49, 57, 56, 53]),
-       ([103, 101, 110, 100, 101, 114], [77])] ++ tplTail
+/-- the `<li>` item for that record: every conversion shown as `escape true (str(value))` -/
+def item85 : Str :=
+  entryHtml id (num85 ++ [46]) beNN.name beNN.description
+    [([98, 105, 114, 116, 104, 32, 100, 97, 116, 101], [49, 57, 56, 53]),
+     ([98, 105, 114, 116, 104, 32, 112, 108, 97, 99, 101], [123, 39, 60, 39, 125]),
+     ([98, 105, 114, 116, 104, 32, 121, 101, 97, 114], [49, 57, 56, 53]),          -- "1985"
+     ([103, 101, 110, 100, 101, 114], [78, 111, 110, 101]),                        -- "None"
+     ([109], [45, 55]),                                                            -- "-7"
+     ([111, 107], [84, 114, 117, 101])]                                            -- "True"
 
-/-- **application_server_error_witness.** The concrete instance: `?number=85073003328` in
-HTML mode is a server error on the model of today's `be.nn` (a getter returns an `int`),
-although the same request in AJAX mode is answered; with `str()` applied to the getter's result
-the page is served.  (The second value of `number` and the parameter `x` are ignored.) -/
-theorem application_server_error_witness :
-    application tplReal params85 false id [rejecting, beNN] = .serverError .attributeError ∧
-    application tplReal params85 true id [rejecting, beNN] = .ok 200 (.json [beNNinfo]) ∧
-    application tplReal params85 false id [rejecting, beNNfixed] = .ok 200 (.html page85) := by
-  refine ⟨by decide +kernel, by decide +kernel, by decide +kernel⟩
+def page85 : Str := tplHead ++ num85 ++ tplMid ++ item85 ++ tplTail
 
-/-- the hypotheses of `application_server_error_of_int` are satisfiable (same instance) -/
-example : application tplReal params85 false id [rejecting, beNN] = .serverError .attributeError :=
-  application_server_error_of_int tplReal params85 id [rejecting, beNN] num85 (by decide +kernel)
+/-- **The fix, on the concrete instance.** `?number=85073003328` on the model of `be.nn` (getters
+returning a date, a dict, two ints, `None`, a bool, and one that raises) is answered in both modes;
+the markup characters in the dict's text reach the page only escaped.  (The second value of
+`number` and the parameter `x` are ignored.) -/
+theorem application_fixed_witness :
+    application tplReal params85 false id [rejecting, beNN] = .ok 200 (.html page85) ∧
+    application tplReal params85 true id [rejecting, beNN] = .ok 200 (.json [beNNinfo]) := by
+  refine ⟨by decide +kernel, by decide +kernel⟩
+
+/-- HISTORICAL (before upstream commit 6b1a6e2): the same record made the old `format()` raise
+`AttributeError`; the current `format()` renders it. -/
+theorem formatEntry_fix_witness :
+    formatEntryOld id beNNinfo = .error .attributeError ∧ formatEntry id beNNinfo = .ok item85 := by
+  refine ⟨by decide +kernel, by decide +kernel⟩
+
+/-- a `Decimal` conversion: the page is served, the AJAX request still fails in `json.dumps` -/
+example : application tplReal params85 false id [decMod] = .ok 200 (.html (tplHead ++ num85 ++ tplMid ++
+      entryHtml id (num85 ++ [46]) beNN.name beNN.description [([100], [49, 46, 53, 48])] ++ tplTail)) ∧
+    application tplReal params85 true id [decMod] = .serverError .typeError := by
+  refine ⟨by decide +kernel, by decide +kernel⟩
+
+/-- the remaining failure mode of `format()` (instance of `application_server_error`): `format(number)`
+itself returning a non-string -/
+example : application tplReal params85 false id [rejecting, badFormat] = .serverError .attributeError :=
+  application_server_error tplReal params85 id [rejecting, badFormat] num85 (by decide +kernel)
     (by intro m hm; simp only [List.mem_cons, List.mem_nil_iff, or_false] at hm
         rcases hm with rfl | rfl <;> exact ⟨_, rfl⟩)
     (by intro m hm ha; simp only [List.mem_cons, List.mem_nil_iff, or_false] at hm
         rcases hm with rfl | rfl
         · cases ha
-        · exact ⟨_, rfl⟩)
-    (by intro m hm ha; simp only [List.mem_cons, List.mem_nil_iff, or_false] at hm
-        rcases hm with rfl | rfl <;> exact ⟨_, rfl⟩)
-    beNN (by simp) (by decide +kernel) (by decide +kernel)
-    ⟨[98, 105, 114, 116, 104, 32, 121, 101, 97, 114], fun _ => .ok (.conv (.int 1985))⟩
-    (by simp [beNN]) 1985 rfl
+        · exact ⟨_, _, rfl, rfl⟩)
+    ⟨badFormat, by simp, by decide +kernel, .int 5, rfl, by intro s h; cases h⟩
 
-/-- `A` is satisfiable on a non-trivial table (one rejecting module whose `format` would raise,
-one accepted module with a date, two strings and a raising getter) -/
-theorem A_fixed : A id [rejecting, beNNfixed] num85 where
+/-- `A` is satisfiable on a non-trivial table: one rejecting module whose `format` would raise, and
+the module above whose getters return every kind of value -/
+theorem A_all : A id [rejecting, beNN] num85 where
   number_enc := by decide +kernel
   valid_total := by
     intro m hm; simp only [List.mem_cons, List.mem_nil_iff, or_false] at hm
@@ -1348,29 +1297,39 @@ theorem A_fixed : A id [rejecting, beNNfixed] num85 where
     rcases hm with rfl | rfl
     · cases ha
     · exact ⟨_, rfl⟩
-  conv_str := by
+  conv_enc := by
     intro m hm ha; simp only [List.mem_cons, List.mem_nil_iff, or_false] at hm
     rcases hm with rfl | rfl
     · cases ha
     · intro g hg
-      simp only [beNNfixed, List.mem_cons, List.mem_nil_iff, or_false] at hg
-      rcases hg with rfl | rfl | rfl | rfl <;> exact ⟨by decide +kernel, by simp [ConvStr]; try decide +kernel⟩
+      simp only [beNN, List.mem_cons, List.mem_nil_iff, or_false] at hg
+      rcases hg with rfl | rfl | rfl | rfl | rfl | rfl | rfl <;>
+        exact ⟨by decide +kernel, by simp only [ConvEnc] <;> decide +kernel⟩
   text_enc := by
     intro m hm ha; simp only [List.mem_cons, List.mem_nil_iff, or_false] at hm
     rcases hm with rfl | rfl
     · cases ha
     · exact ⟨by decide +kernel, by decide +kernel⟩
 
+theorem noNojson_all : NoNojson [rejecting, beNN] num85 := by
+  intro m hm ha g hg t
+  simp only [List.mem_cons, List.mem_nil_iff, or_false] at hm
+  rcases hm with rfl | rfl
+  · cases ha
+  · simp only [beNN, List.mem_cons, List.mem_nil_iff, or_false] at hg
+    rcases hg with rfl | rfl | rfl | rfl | rfl | rfl | rfl <;> intro h <;> cases h
+
 /-- `application_ok` instantiated: real template, the table above, both modes -/
-example (ajax : Bool) : ∃ body, application tplReal params85 ajax id [rejecting, beNNfixed] = .ok 200 body :=
-  let ⟨b, h, _⟩ := application_ok tplReal tplHead tplMid tplTail params85 ajax id [rejecting, beNNfixed]
+example (ajax : Bool) : ∃ body, application tplReal params85 ajax id [rejecting, beNN] = .ok 200 body :=
+  have hs : ∀ n, submitted? params85 = some n → n = num85 := by
+    intro n hn
+    have h : submitted? params85 = some num85 := by decide +kernel
+    rw [h] at hn; cases hn; rfl
+  let ⟨b, h, _⟩ := application_ok tplReal tplHead tplMid tplTail params85 ajax id [rejecting, beNN]
     tplReal_ok tplReal_encodable.1 tplReal_encodable.2.1 tplReal_encodable.2.2
     (by unfold ParamsOk; decide +kernel)
-    (fun n hn => by
-      have : n = num85 := by
-        have h : submitted? params85 = some num85 := by decide +kernel
-        rw [h] at hn; cases hn; rfl
-      subst this; exact A_fixed)
+    (fun n hn => by rw [hs n hn]; exact A_all)
+    (fun _ n hn => by rw [hs n hn]; exact noNojson_all)
   ⟨b, h⟩
 
 /-- escaping a hostile number: `<x9q">'&` -/
@@ -1413,9 +1372,11 @@ end Props.C18
 #print axioms Props.C18.application_ok_html
 #print axioms Props.C18.application_ok
 #print axioms Props.C18.application_server_error
-#print axioms Props.C18.application_server_error_of_int
-#print axioms Props.C18.application_server_error_witness
+#print axioms Props.C18.formatEntry_total
+#print axioms Props.C18.encodable_convStr
+#print axioms Props.C18.application_fixed_witness
+#print axioms Props.C18.formatEntry_fix_witness
 #print axioms Props.C18.runSeq_fresh
 #print axioms Props.C18.runSeq_fresh_process
 #print axioms Props.C18.tplReal_shape
-#print axioms Props.C18.A_fixed
+#print axioms Props.C18.A_all
